@@ -41,6 +41,9 @@ func xtalkMain(args []string) {
 	for round := 0; round < rounds && !sum.tooMany(); round++ {
 		xtalkRound(round, rand.New(rand.NewSource(r.Int63())), cf.count/rounds, sum, &total)
 	}
+	if !sum.tooMany() {
+		stragglerRound(rand.New(rand.NewSource(r.Int63())), sum, &total)
+	}
 	sum.Cases = int(total)
 	sum.finish(start, cf.out)
 }
